@@ -140,7 +140,7 @@ template<class T>
 T fromString(const std::string& s)
 {
   std::istringstream iss(s);
-  T obj;
+  T obj{};
   iss >> obj;
   return obj;
 }
@@ -170,7 +170,7 @@ template<class T>
 T to(const std::string& s)
 {
   std::istringstream iss(s);
-  T t;
+  T t{};
   iss >> t;
   return t;
 }
